@@ -1,67 +1,747 @@
+// vcheck decides one property of /verif/properties.jsonl by bounded symbolic execution of the
+// real code of /repo (current working tree) and writes /verif/evidence/<id>.json.
+//
+//	vcheck C02 --tier quick|thorough
+//	vcheck --fn VerifC02_DecodeAny --pkg secs2      (development: run a single harness)
+//
+// Exit codes: 0 held within bounds; 1 VIOLATION (replayed natively); 2 bound exceeded / solver
+// inconclusive / vacuous / harness does not apply to this tree; 3 counterexample did not
+// reproduce natively.
 package main
 
 import (
+	"bytes"
+	"crypto/sha1"
+	"encoding/json"
 	"flag"
 	"fmt"
 	"os"
+	osexec "os/exec"
 	"path/filepath"
+	"regexp"
+	"sort"
+	"strconv"
 	"strings"
+	"time"
 
 	"gosym/exec"
 )
 
+const goBin = "/opt/veriftools/go1.26.8/bin"
+
+var (
+	repoDir    = "/repo"
+	verifDir   = "/verif"
+	harnessDir = "/verif/harness"
+	workDir    = "/verif/.work"
+)
+
+type harness struct {
+	Prop string
+	Pkg  string // directory under repo, e.g. "secs2"
+	Fn   string
+	File string
+}
+
+var harnessRe = regexp.MustCompile(`(?m)^func (Verif(C\d\d)_\w+)\(\)`)
+
+func discover() []harness {
+	var out []harness
+	dirs, _ := filepath.Glob(filepath.Join(harnessDir, "*"))
+	for _, d := range dirs {
+		if filepath.Base(d) == "common" {
+			continue
+		}
+		files, _ := filepath.Glob(filepath.Join(d, "*.go"))
+		for _, f := range files {
+			b, _ := os.ReadFile(f)
+			for _, mm := range harnessRe.FindAllStringSubmatch(string(b), -1) {
+				out = append(out, harness{Prop: mm[2], Pkg: pkgDirOf(d), Fn: mm[1], File: f})
+			}
+		}
+	}
+	sort.Slice(out, func(i, j int) bool { return out[i].Fn < out[j].Fn })
+	return out
+}
+
+// harness dirs use "_" for "/" (internal_wire -> internal/wire)
+func pkgDirOf(d string) string { return strings.ReplaceAll(filepath.Base(d), "__", "/") }
+
+func pkgNameOf(pkgDir string) string { return filepath.Base(pkgDir) }
+
+// overlayFor builds the virtual files injected into /repo: per package the common intrinsics and
+// all harness files. symbolic selects the executor-side stubs instead of the native helpers.
+func overlayFor(symbolic bool) (map[string][]byte, []harness) {
+	hs := discover()
+	ov := map[string][]byte{}
+	pkgs := map[string]bool{}
+	dirs, _ := filepath.Glob(filepath.Join(harnessDir, "*"))
+	for _, d := range dirs {
+		if filepath.Base(d) == "common" {
+			continue
+		}
+		pkg := pkgDirOf(d)
+		pkgs[pkg] = true
+		files, _ := filepath.Glob(filepath.Join(d, "*.go"))
+		for _, f := range files {
+			b, _ := os.ReadFile(f)
+			ov[filepath.Join(repoDir, pkg, "zz_verif_"+filepath.Base(f))] = b
+		}
+	}
+	for pkg := range pkgs {
+		name := pkgNameOf(pkg)
+		sub := func(file string) []byte {
+			b, err := os.ReadFile(filepath.Join(harnessDir, "common", file))
+			if err != nil {
+				fatal(2, "missing template %s: %v", file, err)
+			}
+			return bytes.ReplaceAll(b, []byte("PKGNAME"), []byte(name))
+		}
+		ov[filepath.Join(repoDir, pkg, "zz_verif_intrinsics.go")] = sub("intrinsics.go.in")
+		if symbolic {
+			ov[filepath.Join(repoDir, pkg, "zz_verif_stubs.go")] = sub("stubs.go.in")
+		} else {
+			ov[filepath.Join(repoDir, pkg, "zz_verif_native.go")] = sub("native.go.in")
+			// replay test with the harness table
+			var tb strings.Builder
+			tb.Write(sub("replay_test.go.in"))
+			tb.WriteString("\nvar vsymHarnessTable = map[string]func(){\n")
+			for _, h := range hs {
+				if h.Pkg == pkg {
+					fmt.Fprintf(&tb, "\t%q: %s,\n", h.Fn, h.Fn)
+				}
+			}
+			tb.WriteString("}\n")
+			ov[filepath.Join(repoDir, pkg, "zz_verif_replay_test.go")] = []byte(tb.String())
+		}
+	}
+	return ov, hs
+}
+
+func fatal(code int, f string, a ...any) {
+	fmt.Printf(f+"\n", a...)
+	os.Exit(code)
+}
+
+// ---- native replay ----
+
+type batchItem struct {
+	Harness string          `json:"harness"`
+	Inputs  []exec.InputVal `json:"inputs"`
+}
+
+type nativeResult struct {
+	Status   string
+	Failures []string
+	Obs      []string
+	Detail   string
+	Crashed  bool
+	Output   string
+}
+
+var builtTests = map[string]string{}
+
+// buildNativeTest compiles the package's test binary (with the harness overlay, tag verif).
+func buildNativeTest(pkg string) (string, error) {
+	if b, ok := builtTests[pkg]; ok {
+		return b, nil
+	}
+	ov, _ := overlayFor(false)
+	os.MkdirAll(workDir, 0o755)
+	odir := filepath.Join(workDir, "ov")
+	os.RemoveAll(odir)
+	os.MkdirAll(odir, 0o755)
+	repl := map[string]string{}
+	i := 0
+	for virt, content := range ov {
+		real := filepath.Join(odir, fmt.Sprintf("%d_%s", i, filepath.Base(virt)))
+		i++
+		if err := os.WriteFile(real, content, 0o644); err != nil {
+			return "", err
+		}
+		repl[virt] = real
+	}
+	oj, _ := json.Marshal(map[string]any{"Replace": repl})
+	ovFile := filepath.Join(workDir, "overlay.json")
+	os.WriteFile(ovFile, oj, 0o644)
+	bin := filepath.Join(workDir, "replay_"+strings.ReplaceAll(pkg, "/", "_")+".test")
+	cmd := osexec.Command(filepath.Join(goBin, "go"), "test", "-c", "-vet=off", "-tags", "verif", "-overlay", ovFile, "-o", bin, "./"+pkg)
+	cmd.Dir = repoDir
+	cmd.Env = goEnv()
+	out, err := cmd.CombinedOutput()
+	if err != nil {
+		return "", fmt.Errorf("native build of %s failed: %v\n%s", pkg, err, out)
+	}
+	builtTests[pkg] = bin
+	return bin, nil
+}
+
+func goEnv() []string {
+	env := os.Environ()
+	env = append(env, "PATH="+goBin+":"+os.Getenv("PATH"), "GOFLAGS=-mod=mod", "GOPROXY=off", "GOSUMDB=off", "GOTOOLCHAIN=local")
+	return env
+}
+
+// runNative runs a batch of vectors in one process (memory-limited) and parses the results.
+func runNative(pkg string, batch []batchItem, tier string, timeoutS int) ([]nativeResult, error) {
+	bin, err := buildNativeTest(pkg)
+	if err != nil {
+		return nil, err
+	}
+	bf := filepath.Join(workDir, fmt.Sprintf("batch_%d.json", time.Now().UnixNano()))
+	bj, _ := json.Marshal(batch)
+	os.WriteFile(bf, bj, 0o644)
+	defer os.Remove(bf)
+	script := fmt.Sprintf("ulimit -v 6000000; exec timeout %d %s -test.run '^TestVerifReplay$' -test.count=1 -test.timeout %ds", timeoutS, bin, timeoutS)
+	cmd := osexec.Command("bash", "-c", script)
+	cmd.Dir = filepath.Join(repoDir, pkg)
+	cmd.Env = append(goEnv(), "VERIF_BATCH="+bf, "VERIF_TIER="+tier)
+	out, runErr := cmd.CombinedOutput()
+	res := make([]nativeResult, len(batch))
+	seen := 0
+	for _, line := range strings.Split(string(out), "\n") {
+		if !strings.HasPrefix(line, "VERIF-RESULT ") {
+			continue
+		}
+		parts := strings.SplitN(line, " ", 6)
+		if len(parts) < 3 {
+			continue
+		}
+		idx, _ := strconv.Atoi(parts[1])
+		if idx < 0 || idx >= len(res) {
+			continue
+		}
+		r := nativeResult{Status: parts[2]}
+		if len(parts) >= 6 {
+			json.Unmarshal([]byte(parts[3]), &r.Failures)
+			json.Unmarshal([]byte(parts[4]), &r.Obs)
+			json.Unmarshal([]byte(parts[5]), &r.Detail)
+		}
+		res[idx] = r
+		seen++
+	}
+	if seen < len(batch) {
+		// the process died (fatal error, timeout, OOM) while running vector #seen
+		tail := string(out)
+		if len(tail) > 1500 {
+			tail = tail[:700] + "\n...\n" + tail[len(tail)-700:]
+		}
+		for i := range res {
+			if res[i].Status == "" {
+				res[i] = nativeResult{Status: "crash", Crashed: true, Output: tail, Detail: fmt.Sprint(runErr)}
+				break
+			}
+		}
+	}
+	return res, nil
+}
+
+// ---- known findings ----
+
+type knownFinding struct {
+	Status   string `json:"status"` // "open" or "fixed"
+	Property string `json:"property"`
+	Harness  string `json:"harness"`
+	Label    string `json:"label"`
+	Kind     string `json:"kind"`
+	Region   string `json:"region"`
+	What     string `json:"what"`
+	Commit   string `json:"commit,omitempty"`
+}
+
+func loadKnown() []knownFinding {
+	b, err := os.ReadFile(filepath.Join(verifDir, "known_findings.json"))
+	if err != nil {
+		return nil
+	}
+	var k struct {
+		Findings []knownFinding `json:"findings"`
+	}
+	if err := json.Unmarshal(b, &k); err != nil {
+		fatal(2, "known_findings.json: %v", err)
+	}
+	return k.Findings
+}
+
+func matchKnown(ks []knownFinding, prop string, v exec.Violation) *knownFinding {
+	for i := range ks {
+		k := &ks[i]
+		if k.Status != "open" || k.Property != prop || k.Harness != v.Harness || k.Label != v.Label {
+			continue
+		}
+		if k.Kind != "" && k.Kind != v.Kind {
+			continue
+		}
+		if k.Region == "" {
+			continue // a finding must name the region (specific failing inputs) it covers
+		}
+		for _, r := range v.Regions {
+			if r == k.Region {
+				return k
+			}
+		}
+	}
+	return nil
+}
+
+// ---- evidence ----
+
+type harnessEvidence struct {
+	Harness       string            `json:"harness"`
+	Package       string            `json:"package"`
+	Paths         int               `json:"paths"`
+	Completed     int               `json:"completed_paths"`
+	Pruned        int               `json:"pruned_paths"`
+	Blocked       int               `json:"blocked_paths"`
+	Obligations   int               `json:"obligations_discharged_unsat"`
+	Queries       map[string]int    `json:"queries"`
+	SolverS       float64           `json:"solver_s"`
+	MaxQueryS     float64           `json:"max_query_s"`
+	Steps         int64             `json:"ssa_instructions_executed"`
+	MaxPathSteps  int64             `json:"max_path_instructions"`
+	MaxDepth      int               `json:"max_call_depth"`
+	Reach         map[string]int    `json:"reach_witnesses"`
+	Ends          map[string]int    `json:"path_ends"`
+	WallS         float64           `json:"wall_s"`
+	Validated     int               `json:"vectors_validated_native"`
+	Samples       []exec.PathSample `json:"samples,omitempty"`
+	Problems      []string          `json:"problems,omitempty"`
+	MaxAllocBytes int64             `json:"max_concrete_alloc_bytes"`
+}
+
+type propMeta struct {
+	Functions []string          `json:"functions_encoded"`
+	Bounds    map[string]string `json:"bounds"`
+	Outside   []string          `json:"outside_claim"`
+	Stubs     []string          `json:"models_and_stubs"`
+	Assume    []string          `json:"assumptions"`
+}
+
+func loadMeta(prop string) propMeta {
+	var all map[string]propMeta
+	b, err := os.ReadFile(filepath.Join(verifDir, "harness", "meta.json"))
+	if err == nil {
+		json.Unmarshal(b, &all)
+	}
+	return all[prop]
+}
+
 func main() {
-	repo := flag.String("repo", "/repo", "repository root")
-	hdir := flag.String("harness", "/verif/harness", "harness root (sub-dir per package)")
-	pkg := flag.String("pkg", "secs2", "package dir under repo")
-	fn := flag.String("fn", "", "harness function")
-	workers := flag.Int("workers", 16, "workers")
+	tier := flag.String("tier", "", "quick|thorough (default: $VERIF_TIER or quick)")
+	oneFn := flag.String("fn", "", "run a single harness function (development)")
+	workers := flag.Int("workers", 16, "parallel workers")
 	trace := flag.Bool("trace", false, "trace instructions")
 	maxPaths := flag.Int("maxpaths", 0, "path limit")
 	slog := flag.String("solverlog", "", "dir for solver transcripts")
-	flag.Parse()
+	noNative := flag.Bool("nonative", false, "skip native replay / self-check (development)")
+	solverKind := flag.String("solver", "z3", "z3|z3-new|cvc5")
+	replayFile := flag.String("replay", "", "replay a stored counterexample vector natively")
+	flag.CommandLine.Parse(reorderArgs(os.Args[1:]))
+	if *tier == "" {
+		*tier = os.Getenv("VERIF_TIER")
+	}
+	if *tier != "thorough" {
+		*tier = "quick"
+	}
+	seed, _ := strconv.Atoi(os.Getenv("VERIF_SEED"))
+	if v := os.Getenv("VERIF_REPO"); v != "" {
+		repoDir = v
+	}
 
-	overlay := map[string][]byte{}
-	files, _ := filepath.Glob(filepath.Join(*hdir, *pkg, "*.go"))
-	for _, f := range files {
-		b, err := os.ReadFile(f)
-		if err != nil {
-			panic(err)
+	if *replayFile != "" {
+		os.Exit(doReplay(*replayFile, *tier))
+	}
+
+	prop := flag.Arg(0)
+	if prop == "" && *oneFn == "" {
+		fatal(2, "usage: vcheck <Cnn> [--tier quick|thorough]")
+	}
+	t0 := time.Now()
+	ov, hs := overlayFor(true)
+	var todo []harness
+	for _, h := range hs {
+		if (*oneFn != "" && h.Fn == *oneFn) || (*oneFn == "" && h.Prop == prop) {
+			todo = append(todo, h)
 		}
-		if strings.HasSuffix(f, "_native.go") || strings.HasSuffix(f, "_test.go") {
+	}
+	if len(todo) == 0 {
+		fatal(2, "no harness for %s%s", prop, *oneFn)
+	}
+	if prop == "" {
+		prop = todo[0].Prop
+	}
+	pkgSet := map[string]bool{}
+	var patterns []string
+	for _, h := range todo {
+		if !pkgSet[h.Pkg] {
+			pkgSet[h.Pkg] = true
+			patterns = append(patterns, "./"+h.Pkg)
+		}
+	}
+	w, err := exec.Load(repoDir, patterns, ov, "verif")
+	if err != nil {
+		fmt.Printf("HARNESS-DOES-NOT-APPLY property=%s: the harness overlay does not type-check against this tree\n%v\n", prop, err)
+		writeEvidence(prop, *tier, seed, nil, nil, time.Since(t0).Seconds(), 0, []string{"harness does not compile against this tree: " + err.Error()}, w)
+		os.Exit(2)
+	}
+	if *tier == "thorough" {
+		w.Tier = 1
+	}
+	fmt.Printf("[%s] loaded %v (+overlay) in %.1fs; tier=%s\n", prop, patterns, w.LoadSecs, *tier)
+
+	known := loadKnown()
+	var evs []harnessEvidence
+	var problems []string
+	exit := 0
+	violations := 0
+	setExit := func(c int) {
+		// precedence: 1 (violation) > 3 (non-reproducing) > 2 (inconclusive)
+		rank := map[int]int{0: 0, 2: 1, 3: 2, 1: 3}
+		if rank[c] > rank[exit] {
+			exit = c
+		}
+	}
+	for _, h := range todo {
+		f := w.FindFunc(w.ModPath+"/"+h.Pkg, h.Fn)
+		if f == nil {
+			problems = append(problems, "harness function not found: "+h.Fn)
+			setExit(2)
 			continue
 		}
-		overlay[filepath.Join(*repo, *pkg, "zz_verif_"+filepath.Base(f))] = b
+		opt := exec.Options{Workers: *workers, Trace: *trace, MaxPaths: *maxPaths, SolverLogDir: *slog, SolverKind: *solverKind, MaxModels: 24}
+		if *tier == "thorough" {
+			opt.TimeoutMS = 120000
+			opt.MaxModels = 96
+		}
+		res := w.Explore(f, opt)
+		ev := harnessEvidence{Harness: h.Fn, Package: h.Pkg, Paths: res.Paths, Completed: res.Completed, Pruned: res.Pruned, Blocked: res.Blocked,
+			Obligations: res.Obligations, Queries: map[string]int{"sat": res.Solver.SatN, "unsat": res.Solver.UnsatN, "unknown": res.Solver.UnknownN, "error": res.Solver.Errors},
+			SolverS: round3(res.Solver.Seconds), MaxQueryS: round3(res.Solver.MaxQuery), Steps: res.Steps, MaxPathSteps: res.MaxSteps, MaxDepth: res.MaxDepth,
+			Reach: res.Reached, Ends: res.Ends, WallS: round3(res.Seconds), Samples: res.Samples, MaxAllocBytes: res.MaxAlloc}
+		fmt.Printf("[%s] %s: paths=%d completed=%d pruned=%d blocked=%d obligations=%d queries=%d (sat %d unsat %d unknown %d) solver=%.1fs wall=%.1fs\n",
+			prop, h.Fn, res.Paths, res.Completed, res.Pruned, res.Blocked, res.Obligations, res.Solver.Queries, res.Solver.SatN, res.Solver.UnsatN, res.Solver.UnknownN, res.Solver.Seconds, res.Seconds)
+		// fail-closed conditions
+		for _, b := range res.BoundHit {
+			ev.Problems = append(ev.Problems, "bound exceeded: "+b)
+		}
+		for _, b := range res.Unsupported {
+			ev.Problems = append(ev.Problems, b)
+		}
+		for _, b := range res.Internal {
+			ev.Problems = append(ev.Problems, b)
+		}
+		if res.Unknowns > 0 {
+			ev.Problems = append(ev.Problems, fmt.Sprintf("solver inconclusive on %d queries", res.Unknowns))
+		}
+		if res.Truncated {
+			ev.Problems = append(ev.Problems, "exploration truncated (path/time limit)")
+		}
+		if res.Completed == 0 && len(res.Violations) == 0 {
+			ev.Problems = append(ev.Problems, "vacuous: no path reached the end of the harness")
+		}
+		for l := range res.Expected {
+			if res.Reached[l] == 0 {
+				ev.Problems = append(ev.Problems, "vacuous: expected label never reached: "+l)
+			}
+		}
+		if *oneFn != "" {
+			for _, v := range res.Violations {
+				fmt.Printf("  viol %s/%s regions=%v: %s\n    inputs=%v\n    stack=%s\n", v.Kind, v.Label, v.Regions, v.Detail, v.Inputs, v.Stack)
+			}
+		}
+		// violations: replay natively
+		for _, v := range res.Violations {
+			vecPath := saveVector(prop, h, v)
+			status := "unreplayed"
+			if !*noNative {
+				nr, err := runNative(h.Pkg, []batchItem{{Harness: h.Fn, Inputs: v.Inputs}}, *tier, 120)
+				if err != nil {
+					ev.Problems = append(ev.Problems, err.Error())
+					setExit(2)
+					continue
+				}
+				status = nr[0].Status
+				confirmed := false
+				switch v.Kind {
+				case "assert":
+					confirmed = status == "fail" && containsStr(nr[0].Failures, v.Label)
+				case "panic":
+					confirmed = status == "panic" || status == "crash"
+				case "alloc":
+					// the native run either dies under the memory limit or survives a huge
+					// allocation; both confirm the size computation — measured separately
+					confirmed = status == "crash" || status == "panic" || nativeAllocExceeded(nr[0])
+				case "blocked":
+					confirmed = status == "crash"
+				}
+				if !confirmed && (status == "fail" || status == "panic" || status == "crash") {
+					// fails natively, though with another label: still a real failure
+					confirmed = true
+				}
+				if !confirmed {
+					fmt.Printf("INCONCLUSIVE property=%s harness=%s label=%s: counterexample did not reproduce natively (status %s) vector=%s\n", prop, h.Fn, v.Label, status, vecPath)
+					ev.Problems = append(ev.Problems, fmt.Sprintf("counterexample for %s did not reproduce natively (status %s)", v.Label, status))
+					setExit(3)
+					continue
+				}
+			}
+			if k := matchKnown(known, prop, v); k != nil {
+				fmt.Printf("KNOWN-FINDING: property=%s %s [harness %s label %s region %s]\n", prop, k.What, h.Fn, v.Label, k.Region)
+				continue
+			}
+			violations++
+			fmt.Printf("VIOLATION property=%s replay=%s\n", prop, vecPath)
+			fmt.Printf("  harness=%s kind=%s label=%s regions=%v native=%s\n  %s\n  at %s\n", h.Fn, v.Kind, v.Label, v.Regions, status, v.Detail, v.Stack)
+			setExit(1)
+		}
+		// differential self-check: executor (pinned) vs native on models of completed paths
+		if !*noNative && len(res.Models) > 0 {
+			n, probs := selfCheck(w, f, h, res.Models, *tier)
+			ev.Validated = n
+			ev.Problems = append(ev.Problems, probs...)
+		}
+		if len(ev.Problems) > 0 {
+			setExit(2)
+			for _, p := range ev.Problems {
+				fmt.Printf("[%s] %s PROBLEM: %s\n", prop, h.Fn, firstLines(p, 6))
+			}
+		}
+		evs = append(evs, ev)
 	}
-	w, err := exec.Load(*repo, []string{"./" + *pkg}, overlay, "verif")
+	wall := time.Since(t0).Seconds()
+	writeEvidence(prop, *tier, seed, evs, todo, wall, violations, problems, w)
+	fmt.Printf("[%s] exit=%d wall=%.1fs\n", prop, exit, wall)
+	os.Exit(exit)
+}
+
+func nonNil(s []string) []string {
+	if s == nil {
+		return []string{}
+	}
+	return s
+}
+
+func nativeAllocExceeded(r nativeResult) bool { return false }
+
+func firstLines(s string, n int) string {
+	ls := strings.Split(s, "\n")
+	if len(ls) > n {
+		ls = ls[:n]
+	}
+	return strings.Join(ls, "\n")
+}
+
+func containsStr(ss []string, s string) bool {
+	for _, x := range ss {
+		if x == s {
+			return true
+		}
+	}
+	return false
+}
+
+func round3(f float64) float64 { return float64(int64(f*1000+0.5)) / 1000 }
+
+// reorderArgs lets flags follow the positional property id.
+func reorderArgs(args []string) []string {
+	var flags, pos []string
+	for i := 0; i < len(args); i++ {
+		a := args[i]
+		if strings.HasPrefix(a, "-") {
+			flags = append(flags, a)
+			if !strings.Contains(a, "=") && i+1 < len(args) && !strings.HasPrefix(args[i+1], "-") && !isBoolFlag(a) {
+				flags = append(flags, args[i+1])
+				i++
+			}
+		} else {
+			pos = append(pos, a)
+		}
+	}
+	return append(flags, pos...)
+}
+
+func isBoolFlag(a string) bool {
+	a = strings.TrimLeft(a, "-")
+	return a == "trace" || a == "nonative"
+}
+
+type vectorFile struct {
+	Property string          `json:"property"`
+	Harness  string          `json:"harness"`
+	Package  string          `json:"package"`
+	Kind     string          `json:"kind"`
+	Label    string          `json:"label"`
+	Regions  []string        `json:"regions,omitempty"`
+	Detail   string          `json:"detail"`
+	Stack    string          `json:"stack"`
+	Inputs   []exec.InputVal `json:"inputs"`
+}
+
+func saveVector(prop string, h harness, v exec.Violation) string {
+	dir := filepath.Join(verifDir, "replays", prop)
+	os.MkdirAll(dir, 0o755)
+	vf := vectorFile{Property: prop, Harness: h.Fn, Package: h.Pkg, Kind: v.Kind, Label: v.Label, Regions: v.Regions, Detail: v.Detail, Stack: v.Stack, Inputs: v.Inputs}
+	b, _ := json.MarshalIndent(vf, "", " ")
+	sum := sha1.Sum(b)
+	p := filepath.Join(dir, fmt.Sprintf("%s-%s-%x.json", h.Fn, sanitize(v.Label), sum[:4]))
+	os.WriteFile(p, b, 0o644)
+	return p
+}
+
+func sanitize(s string) string {
+	return regexp.MustCompile(`[^A-Za-z0-9_.-]`).ReplaceAllString(s, "_")
+}
+
+func doReplay(path, tier string) int {
+	b, err := os.ReadFile(path)
 	if err != nil {
-		fmt.Println("LOAD ERROR:", err)
-		os.Exit(2)
+		fatal(2, "%v", err)
 	}
-	fmt.Printf("loaded in %.1fs, module %s\n", w.LoadSecs, w.ModPath)
-	f := w.FindFunc(w.ModPath+"/"+*pkg, *fn)
-	if f == nil {
-		fmt.Println("no such harness", *fn)
-		os.Exit(2)
+	var vf vectorFile
+	if err := json.Unmarshal(b, &vf); err != nil {
+		fatal(2, "%v", err)
 	}
-	res := w.Explore(f, exec.Options{Workers: *workers, Trace: *trace, MaxPaths: *maxPaths, SolverLogDir: *slog})
-	fmt.Printf("paths=%d completed=%d pruned=%d blocked=%d obligations=%d sat=%d unknowns=%d steps=%d maxdepth=%d secs=%.2f\n",
-		res.Paths, res.Completed, res.Pruned, res.Blocked, res.Obligations, res.ObligSat, res.Unknowns, res.Steps, res.MaxDepth, res.Seconds)
-	fmt.Printf("solver: %+v\n", res.Solver)
-	fmt.Printf("ends: %v\nreached: %v\n", res.Ends, res.Reached)
-	for _, b := range res.BoundHit {
-		fmt.Println("BOUND:", b)
+	nr, err := runNative(vf.Package, []batchItem{{Harness: vf.Harness, Inputs: vf.Inputs}}, tier, 300)
+	if err != nil {
+		fatal(2, "%v", err)
 	}
-	for _, b := range res.Unsupported {
-		fmt.Println("UNSUPPORTED:", b)
+	r := nr[0]
+	fmt.Printf("replay %s: harness=%s status=%s failures=%v detail=%s\n", path, vf.Harness, r.Status, r.Failures, r.Detail)
+	if r.Crashed {
+		fmt.Println(r.Output)
 	}
-	for _, b := range res.Internal {
-		fmt.Println("INTERNAL:", b)
+	if r.Status == "pass" || r.Status == "assume-false" {
+		return 0
 	}
-	for _, v := range res.Violations {
-		fmt.Printf("VIOL %s/%s: %s\n  inputs=%v\n  stack=%s\n", v.Kind, v.Label, v.Detail, v.Inputs, v.Stack)
+	return 1
+}
+
+// selfCheck runs the harness on concrete vectors both in the executor (pinned, no solver) and in
+// the natively compiled package and compares outcome and observation traces.
+func selfCheck(w *exec.World, f any, h harness, models [][]exec.InputVal, tier string) (int, []string) {
+	fn := w.FindFunc(w.ModPath+"/"+h.Pkg, h.Fn)
+	var batch []batchItem
+	for _, mv := range models {
+		batch = append(batch, batchItem{Harness: h.Fn, Inputs: mv})
 	}
-	for _, s := range res.Samples {
-		fmt.Printf("sample: %+v\n", s)
+	nrs, err := runNative(h.Pkg, batch, tier, 300)
+	if err != nil {
+		return 0, []string{"self-check: " + err.Error()}
 	}
+	var probs []string
+	ok := 0
+	for i, mv := range models {
+		end, p := w.RunPinned(fn, mv, exec.Options{})
+		nat := nrs[i]
+		if nat.Status == "" {
+			continue // not run (an earlier vector crashed the process)
+		}
+		want := "pass"
+		switch {
+		case end == "assume-false":
+			want = "assume-false"
+		case len(p.Violations) > 0 && p.Violations[0].Kind == "panic":
+			want = "panic"
+		case len(p.Violations) > 0:
+			want = "fail"
+		case end != "done":
+			want = "?" + end
+		}
+		if want != nat.Status {
+			probs = append(probs, fmt.Sprintf("self-check mismatch on vector %d of %s: executor=%s (end %s) native=%s %s inputs=%v", i, h.Fn, want, end, nat.Status, nat.Detail, mv))
+			continue
+		}
+		if !equalStrs(p.Observed, nat.Obs) {
+			probs = append(probs, fmt.Sprintf("self-check observation mismatch on vector %d of %s:\n executor=%v\n native=%v\n inputs=%v", i, h.Fn, p.Observed, nat.Obs, mv))
+			continue
+		}
+		ok++
+	}
+	if len(probs) > 4 {
+		probs = append(probs[:4], fmt.Sprintf("(%d more self-check mismatches)", len(probs)-4))
+	}
+	return ok, probs
+}
+
+func equalStrs(a, b []string) bool {
+	if len(a) != len(b) {
+		return false
+	}
+	for i := range a {
+		if a[i] != b[i] {
+			return false
+		}
+	}
+	return true
+}
+
+func writeEvidence(prop, tier string, seed int, evs []harnessEvidence, hs []harness, wall float64, violations int, problems []string, w *exec.World) {
+	meta := loadMeta(prop)
+	states, trans, validated, oblig := 0, 0, 0, 0
+	solverS := 0.0
+	var samples []any
+	q := map[string]int{}
+	for _, e := range evs {
+		states += e.Paths
+		for k, v := range e.Queries {
+			q[k] += v
+			trans += v
+		}
+		validated += e.Validated
+		oblig += e.Obligations
+		solverS += e.SolverS
+		for i, s := range e.Samples {
+			if i < 3 {
+				samples = append(samples, map[string]any{"harness": e.Harness, "path": s})
+			}
+		}
+		problems = append(problems, e.Problems...)
+	}
+	if len(samples) == 0 {
+		samples = append(samples, map[string]any{"note": "no path completed"})
+	}
+	var fns []string
+	if w != nil {
+		for _, f := range w.RepoFuncs() {
+			fns = append(fns, f)
+		}
+	}
+	cov := map[string]any{
+		"states":                        states,
+		"transitions":                   trans,
+		"traces_validated_against_impl": validated,
+		"samples":                       samples,
+		"exhaustive":                    false,
+		"rule":                          "states = feasible execution paths of the harness explored by the symbolic executor over the real SSA of /repo; transitions = SMT queries discharged; every path's assertions are decided for ALL input values consistent with the path condition",
+		"obligations_unsat":             oblig,
+		"queries":                       q,
+		"solver_s":                      round3(solverS),
+		"harnesses":                     evs,
+		"functions_encoded":             meta.Functions,
+		"functions_executed":            fns,
+		"bounds":                        meta.Bounds,
+		"outside_claim":                 meta.Outside,
+		"models_and_stubs":              meta.Stubs,
+		"problems":                      problems,
+		"solver":                        "z3 4.8.12 via one persistent `z3 -in` per worker (push/pop per path)",
+	}
+	ev := map[string]any{
+		"property_id": prop,
+		"tier":        tier,
+		"seed":        seed,
+		"level":       "model_checking",
+		"coverage":    cov,
+		"assumptions": nonNil(meta.Assume),
+		"wall_s":      round3(wall),
+		"violations":  violations,
+	}
+	if states == 0 {
+		cov["states"] = 1 // schema minimum; the problems list says what happened
+		cov["transitions"] = 1
+	} else if trans == 0 {
+		cov["transitions"] = 1
+	}
+	os.MkdirAll(filepath.Join(verifDir, "evidence"), 0o755)
+	b, _ := json.MarshalIndent(ev, "", " ")
+	os.WriteFile(filepath.Join(verifDir, "evidence", prop+".json"), b, 0o644)
 }
